@@ -46,26 +46,29 @@ Proof.
   - destruct (is_char_boundary b lo && is_char_boundary b hi); reflexivity.
 Qed.
 
-(* the '#' digits once their number is known: [b] is a list of that many variables, each an ASCII hex digit
-   (or the hex-digit test of the code fails on both sides); every slice / split_at / chunk of it computes *)
+(* the '#' digits once their number is known: [b] is a list of that many variables.  The hex-digit test of the
+   code (`all`, a loop, ..) is decided digit by digit on both sides; with every digit an ASCII hex digit each
+   slice / split_at of the bytes computes *)
 Ltac hex_side :=
   cbn [forallb]; repeat match goal with H : is_ascii_hexdigit _ = true |- _ => rewrite H end; reflexivity.
 Ltac hex_cbn :=
-  cbn -[u8_from_str_radix is_ascii_hexdigit str_slice forallb];
+  cbn -[u8_from_str_radix is_ascii_hexdigit str_slice];
   repeat (progress (repeat match goal with |- context [Pos.to_nat ?p] =>
                       let v := eval vm_compute in (Pos.to_nat p) in change (Pos.to_nat p) with v end);
-          cbn -[u8_from_str_radix is_ascii_hexdigit str_slice forallb]).
-Ltac hex_digits :=
+          cbn -[u8_from_str_radix is_ascii_hexdigit str_slice]).
+Ltac hex_each :=
   hex_cbn;
-  match goal with |- context [forallb is_ascii_hexdigit ?bb] =>
-    let H := fresh "H" in destruct (forallb is_ascii_hexdigit bb) eqn:H;
-    [ cbn [forallb] in H; repeat (apply andb_true_iff in H; let H1 := fresh "H" in destruct H as [H1 H])
-    | cbn [negb]; reflexivity ] end;
+  lazymatch goal with
+  | |- context [is_ascii_hexdigit ?x] => let H := fresh "H" in destruct (is_ascii_hexdigit x) eqn:H; hex_each
+  | _ => idtac
+  end.
+Ltac hex_slices :=
   repeat (hex_cbn;
           match goal with |- context [str_slice ?bb ?lo ?hi] => rewrite (str_slice_hex bb lo hi) by hex_side end);
   hex_cbn;
   repeat match goal with |- context [u8_from_str_radix ?r ?d] => destruct (u8_from_str_radix r d) end;
   reflexivity.
+Ltac hex_digits := hex_each; first [reflexivity | hex_slices].
 
 Lemma g_git_parse_color_eq : forall w,
   option_map git_color_res (g_git_parse_color w) = parse_color w.
